@@ -464,13 +464,15 @@ Fixpoint strip_ids (fuel : nat) (s : str) : str * nat :=
 Definition attr_len : nat := 22.   (* length " data-djc-id-" + 6 + 3 *)
 Definition attr_css_len : nat := 23.
 
+(* (?: data-djc-css-\w{6}="")?(?: data-djc-id-\w{6}="")* : the rest and the number of bytes matched *)
+Definition ph_attrs (s1 : str) : str * nat :=
+  let '(s2, n1) := match strip_attr attr_css s1 with Some r => (r, attr_css_len) | None => (s1, O) end in
+  let '(s3, n2) := strip_ids (length s2) s2 in (s3, (n1 + n2 * attr_len)%nat).
+
 Definition match_placeholder (s : str) : option (kind * nat) :=
-  let attrs (s1 : str) : str * nat :=
-    let '(s2, n1) := match strip_attr attr_css s1 with Some r => (r, attr_css_len) | None => (s1, O) end in
-    let '(s3, n2) := strip_ids (length s2) s2 in (s3, (n1 + n2 * attr_len)%nat) in
   match strip_prefix css_ph_open s with
   | Some s1 =>
-      let '(s3, n) := attrs s1 in
+      let '(s3, n) := ph_attrs s1 in
       match s3 with
       | 47 :: 62 :: _ => Some (KCss, (length css_ph_open + n + 2)%nat)
       | 62 :: _ => Some (KCss, (length css_ph_open + n + 1)%nat)
@@ -479,7 +481,7 @@ Definition match_placeholder (s : str) : option (kind * nat) :=
   | None =>
       match strip_prefix js_ph_open s with
       | Some s1 =>
-          let '(s3, n) := attrs s1 in
+          let '(s3, n) := ph_attrs s1 in
           match strip_prefix js_ph_close s3 with
           | Some _ => Some (KJs, (length js_ph_open + n + length js_ph_close)%nat)
           | None => None
@@ -498,6 +500,16 @@ Definition emit_placeholder (k : kind) (css : option str) (ids : list str) (slas
   | KCss => css_ph_open ++ attrs ++ (if slash then [47] else []) ++ [62]
   | KJs => js_ph_open ++ attrs ++ js_ph_close
   end.
+
+(* a render id / css hash as the attribute regex wants it: \w{6} *)
+Definition is_word6 (s : str) : bool :=
+  match s with
+  | [a; b; c; d; e; f] => is_word a && is_word b && is_word c && is_word d && is_word e && is_word f
+  | _ => false
+  end.
+Definition ph_word : str := s2n "_PLACEHOLDER"%string.
+(* text that cannot be mistaken for a placeholder *)
+Definition ph_clean (s : str) : Prop := contains ph_word s = false.
 
 (* ---------------------------------------------------------------------------------------- *)
 (* render_dependencies                                                                       *)
@@ -617,7 +629,8 @@ Definition check_ph (c : ph_case) : bool :=
 (* 2. pipeline: outcome of _process_dep_declarations *)
 Inductive outcome :=
 | OOk (content : str) (js css : list tok)
-| OMalformed | OKeyError (h : str) | OMissingUrl.
+| OMalformed | OKeyError (h : str) | OMissingUrl
+| OOther.   (* any other exception: never a result of the model *)
 
 Definition pipe_case := (rtype * list (str * cinfo) * str * outcome)%type.
 Definition check_pipe (c : pipe_case) : bool :=
